@@ -1220,6 +1220,19 @@ fn freeze_strategy(_t: Tier) -> BoxedStrategy<Scenario> {
             probe_opts(),
         ),
         1 => gen::churn_scenario_with(probe_opts(), 8, gen::wait_no_notify(), FutMode::Never),
+        // add_stream on a parent shared by 2-3 handles whose siblings receive meanwhile: the state
+        // in which a freshly published stream is briefly behind the writers
+        2 => gen::addstream_plan().prop_map(|mut pl| {
+            use crate::handles::WaitKind;
+            pl.parent_handles = 2 + pl.parent_handles % 2;
+            pl.q.futures = false;
+            pl.q.wait = match pl.q.wait {
+                WaitKind::Block(a, b) => WaitKind::Yield(a, b),
+                WaitKind::BlockDefault => WaitKind::YieldDefault,
+                w => w,
+            };
+            gen::build_addstream(&pl, &probe_opts())
+        }),
     ]
     .boxed()
 }
